@@ -303,6 +303,50 @@ func (g *c12gen) hist(bucket string, z c12zone, startJS, startCq string, ops []h
 		fmt.Sprintf("%s: [zone offset %d ms] %s -> %s", bucket, z.off, src.String(), obs), bucket, true)
 }
 
+// histAll is hist with every observer (getTime, the UTC and local accessors, valueOf, toISOString, toJSON, JSON.stringify,
+// Date.parse of the ISO text) called on the one Date object before the first setter and again after every setter
+func (g *c12gen) histAll(bucket string, z c12zone, startJS, startCq string, ops []hop) {
+	var src strings.Builder
+	fmt.Fprintf(&src, `var d = %s; var S = []; function ob(v) { var ok = d.getTime() === d.getTime(); var iso = ok ? d.toISOString() : ""; var js = ok ? String(d.toJSON()) : (d.toJSON() === null ? "" : "not null"); var st = JSON.stringify(d); var stx = ok ? '"' + iso + '"' : "null"; S.push([v, %s, iso + (js === iso ? "" : " toJSON=" + js) + (st === stx ? "" : " stringify=" + st), ok ? Date.parse(iso) : NaN].join("|")); } ob(d.getTime());`, startJS, c12GetJS)
+	cops := make([]string, len(ops))
+	for k, o := range ops {
+		js, cq := make([]string, len(o.args)), make([]string, len(o.args))
+		for i, a := range o.args {
+			js[i], cq[i] = a.js, a.cq
+		}
+		name := c12SetterName(o.id)
+		var call string
+		switch o.form % 4 {
+		case 1:
+			call = fmt.Sprintf("d.%s.apply(d, [%s])", name, strings.Join(js, ","))
+		case 2:
+			call = fmt.Sprintf("d.%s.call(%s)", name, strings.Join(append([]string{"d"}, js...), ","))
+		case 3:
+			call = fmt.Sprintf("Date.prototype.%s.apply(d, [%s])", name, strings.Join(js, ","))
+		default:
+			call = fmt.Sprintf("d.%s(%s)", name, strings.Join(js, ","))
+		}
+		fmt.Fprintf(&src, " ob(%s);", call)
+		cops[k] = fmt.Sprintf("(%d, %s)", o.id, Clist(cq))
+	}
+	src.WriteString(` S.join("#")`)
+	old := time.Local
+	time.Local = z.loc
+	obs := g.js(src.String())
+	time.Local = old
+	var steps []string
+	for _, st := range strings.Split(obs, "#") {
+		parts := strings.Split(st, "|")
+		if len(parts) != 4 {
+			steps = append(steps, fmt.Sprintf("(None, [], %s, None)", Cstr(st)))
+			continue
+		}
+		steps = append(steps, fmt.Sprintf("(%s, %s, %s, %s)", optZ(parts[0]), Clist(optZList(parts[1])), Cstr(parts[2]), optZ(parts[3])))
+	}
+	g.env.Add(fmt.Sprintf("CHistAll %s %s %s %s", Cz(z.off), startCq, Clist(cops), Clist(steps)),
+		fmt.Sprintf("%s: [zone offset %d ms] %s -> %s", bucket, z.off, src.String(), obs), bucket, true)
+}
+
 func (g *c12gen) utcq(bucket string, ctor bool, args []qarg) {
 	js, cq := make([]string, len(args)), make([]string, len(args))
 	for i, a := range args {
@@ -645,12 +689,52 @@ func (g *c12gen) pinnedFamilies() {
 	} {
 		g.hist("beyond-2^53-then-back", utcZ, fmt.Sprintf("new Date(%s)", JSNum(float64(c.base))), "(Some "+Cz(c.base)+")", c.ops)
 	}
+
+	// F5: no observer may remember anything across a mutator: on ONE Date object every observer is called, then a setter,
+	// then every observer again, for every ordered pair of mutators (the 7 setUTC*, setTime, the 7 local setters),
+	// from valid, sentinel and invalid starts; setTime has its own code path (no builtinDateBeforeSet)
+	{
+		ids := []int{0, 1, 2, 3, 4, 5, 6, 7, 10, 11, 12, 13, 14, 15, 16}
+		starts := []int64{0, 951782400000 + 3723004, c12GoZero, -1, 1709164800000}
+		mk := func(id, k int) hop {
+			if id == 7 {
+				return hop{7, []qarg{qInt([]int64{981173106007, c12GoZero + 1, -86400001, 0, 1709251199999}[k%5])}, k}
+			}
+			n := 1 + k%c12Arity(id)
+			args := make([]qarg, n)
+			for i := range args {
+				v := int64(2 + (k+3*i)%9)
+				if id%10 == 6 && i == 0 {
+					v = int64(1999 + k%5)
+				}
+				args[i] = qInt(v)
+			}
+			return hop{id, args, k}
+		}
+		k := 0
+		for _, a := range ids {
+			for _, b := range ids {
+				k++
+				if !thorough && a != 7 && b != 7 && k%3 != rot {
+					continue
+				}
+				st := starts[k%len(starts)]
+				g.histAll("observe-around-mutators", c12Zones[k%len(c12Zones)], fmt.Sprintf("new Date(%s)", JSNum(float64(st))), "(Some "+Cz(st)+")", []hop{mk(a, k), mk(b, k+1)})
+			}
+		}
+		// through the invalid state and back, and setTime onto the value the Date already has
+		for i, id := range ids {
+			g.histAll("observe-around-mutators", c12Zones[i%len(c12Zones)], "new Date(86400000)", "(Some 86400000)",
+				[]hop{{7, []qarg{{"NaN", "None"}}, i}, mk(id, i), {7, []qarg{qInt(981173106007)}, i + 1}, mk(id, i+2), {7, []qarg{qInt(981173106007 + int64(i))}, 0}, {7, []qarg{qInt(981173106007 + int64(i))}, 0}})
+			g.histAll("observe-around-mutators", utcZ, "new Date(NaN)", "None", []hop{mk(id, i), {7, []qarg{qInt(5)}, i}, mk(id, i+1), {id, []qarg{{"NaN", "None"}}, i}, {7, []qarg{qInt(-5)}, i}})
+		}
+	}
 }
 
 func runC12(env *Env) {
 	time.Local = time.UTC
 	env.Import = "Otto.C12.Corr"
-	env.Rule = "time values: uniform over +-8.64e15 and around year/month/leap-day/century boundaries; field tuples in +-1e6 with NaN/Infinity; setUTC* histories of length 1-4; pinned on every seed: sentinel instants (0001-01-01T00:00:00.000Z, -1, 0, +-1 ms) through every constructor/parse/setTime/setter route, fractional fields of Date.UTC/constructor/setters in thousandths (ToInteger done in Coq), surplus setter arguments (direct/apply/call), local-time setters in constant-offset zones followed by UTC accessors; non-trivial = distinct case whose time value or a field lies outside 1970..2100 or that involves a NaN, overflowing field or negative time"
+	env.Rule = "time values: uniform over +-8.64e15 and around year/month/leap-day/century boundaries; field tuples in +-1e6 with NaN/Infinity; setUTC* histories of length 1-4; pinned on every seed: sentinel instants (0001-01-01T00:00:00.000Z, -1, 0, +-1 ms) through every constructor/parse/setTime/setter route, fractional fields of Date.UTC/constructor/setters in thousandths (ToInteger done in Coq), surplus setter arguments (direct/apply/call), local-time setters in constant-offset zones followed by UTC accessors, every observer before and after every ordered pair of mutators; non-trivial = distinct case whose time value or a field lies outside 1970..2100 or that involves a NaN, overflowing field or negative time"
 	g := &c12gen{env: env, vm: otto.New()}
 	r := env.Rng
 	const getJS = `[d.getTime(), d.getUTCFullYear(), d.getUTCMonth(), d.getUTCDate(), d.getUTCDay(), d.getUTCHours(), d.getUTCMinutes(), d.getUTCSeconds(), d.getUTCMilliseconds(), d.valueOf(), d.getFullYear(), d.getMonth(), d.getDate(), d.getDay(), d.getHours(), d.getMinutes(), d.getSeconds(), d.getMilliseconds()].join(",")`
@@ -888,7 +972,11 @@ func runC12(env *Env) {
 					}
 					hops[k] = hop{id, args, r.Intn(4)}
 				}
-				g.hist("set-local-mixed", z, "new Date("+start+")", cstart, hops)
+				if r.Intn(2) == 0 {
+					g.histAll("set-local-mixed-observed", z, "new Date("+start+")", cstart, hops)
+				} else {
+					g.hist("set-local-mixed", z, "new Date("+start+")", cstart, hops)
+				}
 				continue
 			}
 			if r.Intn(4) == 0 {
